@@ -31,9 +31,9 @@ theorem C19_captures_complete (ps : List Nat) (body : RExpr) (id : Nat) :
   · rintro ⟨h1, h2, h3⟩; exact ⟨h1, h3, h2⟩
 
 /-- A variable captured by an inner lambda, and bound by neither the enclosing lambda's parameters nor its
-    locals, is captured by the enclosing lambda as well — wherever the inner lambda sits in its body
-    (`ctx`: any expression that contains the inner lambda as a free occurrence site, here spelled out for the
-    three typical places). -/
+    locals, is captured by the enclosing lambda as well — stated for three places of the inner lambda in the enclosing
+    body: the body itself, the initialiser of the first `let` of a block, the single operand of an operator.  (Any other
+    place follows the same way from `C19_captures_complete` and the matching `FreeE` constructor; it is not stated here.) -/
 theorem C19_nested_capture (ps1 ps2 : List Nat) (inner : RExpr) (id : Nat) (pre post : RStmts) (b : Nat)
     (h : id ∈ capturesOf ps2 inner) :
     let lamInner := RExpr.lam ps2 inner
@@ -259,8 +259,10 @@ theorem C19_mkref_captures_nothing (n : Nat) (P : Prog) (s : St) (name : String)
       = .ok (.clo d.fields (.mkStruct name (Exprs.ofList (d.fields.map .var))) []) s := by
   simp only [evalE, h]
 
-/-- **Calling a named function through its value is the direct call**: same arguments evaluated in the same
-    order, same body, same result, for every fuel — also when the value comes out of an index expression. -/
+/-- **Calling a named function through its value is the direct call**: for a callee written `fnref f` with `f` a
+    declared function, the reference evaluation of `(fnref f)(args)` equals that of `f(args)` — same result, state and
+    signals, for every fuel.  (A callee that first has to be computed, e.g. `fs[1]`, is covered by the concrete
+    `C19_fnref_snapshot` only.) -/
 theorem C19_fnref_call (n : Nat) (P : Prog) (s : St) (f : String) (args : Exprs) (d : FnDef)
     (h : P.findFn f = some d) :
     evalE (n + 1) P s (.callv (.fnref f) args) = evalE (n + 1) P s (.call f args) := by
